@@ -83,6 +83,11 @@ class JitCore_Python(jitcore.JitCore):
             # Refresh CPU values according to @cpu instance
             exec_engine.update_engine_from_cpu()
 
+            # No branch is pending when a block starts (as in the C code,
+            # where the delay slot state is local to the block function)
+            if has_delayslot:
+                exec_engine.symbols[codegen.delay_slot_set] = ExprInt(0, 32)
+
             # Get initial loc_key
             cur_loc_key = asmblock.loc_key
 
